@@ -121,7 +121,7 @@ func unqTokenBytes(tk string, r *rand.Rand, bmp *[]string) string {
 	case "e_tab":
 		return `\t`
 	case "e_ctl":
-		return pick(r, `\u0001`, `\u001f`, `\u0000`)
+		return `\u0001`
 	case "e_sl":
 		return `\/`
 	case "e_b":
@@ -153,7 +153,7 @@ func unqTokenBytes(tk string, r *rand.Rand, bmp *[]string) string {
 	case "u_short":
 		return pick(r, `\u`, `\u0`, `\u00`, `\u00e`)
 	}
-	return contentBytes(tk, r)
+	return contentBytesFixed(tk) // raw content: the same representative on the input and the expected side
 }
 
 func utf8ClassByte(c string, r *rand.Rand) byte {
@@ -314,6 +314,9 @@ func strUnquoteCase(c *strCase, res *strRes, r *rand.Rand, lead, trail string, e
 	sb.WriteString(lead)
 	var bmp []string
 	raw := false // raw bytes that encoding/json does not take inside a literal
+	if n := len(c.S); n > 0 && (c.S[n-1] == "e_trunc" || c.S[n-1] == "u_short") {
+		trail = "" // these tokens are defined by the end of the input
+	}
 	for _, tk := range c.S {
 		sb.WriteString(unqTokenBytes(tk, r, &bmp))
 		raw = raw || tk == "nl" || tk == "bad" || tk == "ctl" || tk == "cr" || tk == "tab"
@@ -359,6 +362,7 @@ func strUnquoteCase(c *strCase, res *strRes, r *rand.Rand, lead, trail string, e
 		serr := json.Unmarshal([]byte(`"`+t+`"`), &viaStd)
 		if (serr != nil) != wantErr || (!wantErr && viaStd != want) {
 			res.Oracle++
+			res.bad(c, "encoding/json", "oracle_disagreement", in, fmt.Sprint(wantErr, " ", want), fmt.Sprint(serr, " ", viaStd))
 		} else {
 			// through Unmarshal, default (replace) policy
 			var s1 string
